@@ -138,6 +138,11 @@ def _with_value_helpers_inlined(ix, fi):
     return _sh._set_parents(fn)
 
 
+def _named_entry(e, table: str, key: str) -> bool:
+    """`e` is the entry of `table` under `key`: `table[key]` or `table.get(key[, default])`"""
+    return _sh.match(f"{table}[{key}]", e) is not None or _sh.match(f"{table}.get({key}, *_R)", e) is not None
+
+
 def _members_of_other_groups(e) -> bool:
     """`e` collects <g>.members for every <g> in self._groups.values() except the root group (whatever the
     comprehension variables are called)"""
@@ -151,6 +156,17 @@ def _members_of_other_groups(e) -> bool:
         filters = [(norm(at), tr) for i in g0.ifs + g1.ifs for at, tr in _sh.conjuncts(i, "t")]
         if filters and all(f_ in ((f"{G}.name == 'root'", False), (f"'root' == {G}.name", False)) for f_ in filters):
             return True
+    # ... or unites them: <set>.union(*(<g>.members for <g> in self._groups.values() if <g> is not root))
+    for u in ast.walk(e):
+        if isinstance(u, ast.Call) and call_name(u) == "union" and len(u.args) == 1 and isinstance(u.args[0], ast.Starred) and not u.keywords:
+            comp = u.args[0].value
+            if isinstance(comp, (ast.ListComp, ast.SetComp, ast.GeneratorExp)) and len(comp.generators) == 1:
+                g0 = comp.generators[0]
+                G = norm(g0.target)
+                filters = [(norm(at), tr) for i in g0.ifs for at, tr in _sh.conjuncts(i, "t")]
+                if norm(g0.iter) == "self._groups.values()" and norm(comp.elt) == f"{G}.members" and filters \
+                        and all(f_ in ((f"{G}.name == 'root'", False), (f"'root' == {G}.name", False)) for f_ in filters):
+                    return True
     return False
 
 
@@ -166,8 +182,10 @@ def run(ck, ix, tier):
     defs = defs_of(fi)
     cfg = cfg_of(fi)
     # system None -> default
-    dflt = [a for a in walk_local(fi.node) if isinstance(a, ast.Assign) and any(norm(t) == "system" for t in a.targets) and norm(a.value) == "self._default_system_name"
-            and any((norm(at) in ("system is None", "system == None") and tr) or (norm(at) == "system" and not tr) for at, tr in _sh.facts_at(a, fi.node))]
+    # (an `if` statement or a conditional expression: each value `system` may be given is looked at with what is known there)
+    dflt = [v for a in walk_local(fi.node) if isinstance(a, ast.Assign) and any(norm(t) == "system" for t in a.targets) for v in memo.alternatives(a.value)
+            if norm(v) == "self._default_system_name"
+            and any((norm(at) in ("system is None", "system == None") and tr) or (norm(at) == "system" and not tr) for at, tr in _sh.facts_at(v, fi.node))]
     ck.check(bool(dflt), "G-PROV", "_get_base_units|none-means-default-system", fi.loc(),
              "system=None means the default system", "a missing `system` argument no longer falls back to self._default_system_name")
     # root units come from get_root_units of the input with the same check_nonmult
@@ -190,9 +208,11 @@ def run(ck, ix, tier):
                  "the requested system is looked up (unknown names raise)", f"`{norm(c)}` does not look up the requested system without creating it")
     # substitution loop: the loop over the items of the root units in which the destination is accumulated:
     #   destination *= new_unit ** value   /  destination *= {unit: value}
+    from_roots = lambda e: bool({"call:get_root_units", "call:_get_root_units"} & defs.roots(e))
     loops = [f for f in walk_local(fi.node) if isinstance(f, ast.For) and isinstance(f.iter, ast.Call) and call_name(f.iter) == "items" and isinstance(f.iter.func, ast.Attribute)
-             and norm(f.iter.func.value) == root_units and any(isinstance(a, ast.AugAssign) for a in ast.walk(f))]
+             and (norm(f.iter.func.value) == root_units or from_roots(f.iter.func.value)) and any(isinstance(a, ast.AugAssign) for a in ast.walk(f))]
     ck.floor("G-PROV", len(loops), 1, "substitution loop over the root units")
+    iterated = {norm(f.iter.func.value) for f in loops}       # the root units the loop translates (possibly under another local name)
     accumulators = set()
     for f in loops:
         if not (isinstance(f.target, ast.Tuple) and len(f.target.elts) == 2):
@@ -227,7 +247,7 @@ def run(ck, ix, tier):
     ck.floor("G-PROV", len(convs), 1, "factor conversion in _get_base_units")
     for c in convs:
         args = [norm(a) for a in c.args]
-        ck.check(len(args) >= 3 and args[0] == root_factor and args[1] == root_units and args[2] in accumulators, "G-PROV", "_get_base_units|factor-converted-root-to-base", fi.loc(c),
+        ck.check(len(args) >= 3 and args[0] == root_factor and args[1] in iterated | {root_units} and args[1] not in accumulators and args[2] in accumulators, "G-PROV", "_get_base_units|factor-converted-root-to-base", fi.loc(c),
                  "factor converted from root units to the substituted units", f"`{norm(c)}` does not convert the factor from `{root_units}` to `{'/'.join(sorted(accumulators))}`")
 
     # public get_base_units passes its arguments through
@@ -259,14 +279,18 @@ def run(ck, ix, tier):
         s = norm(v)
         if "members" in s or "&" in s:
             inter = [b for b in ast.walk(v) if isinstance(b, ast.BinOp) and isinstance(b.op, ast.BitAnd)]
-            ok = bool(inter) and any(is_super_call(x, "_get_compatible_units") for x in ast.walk(inter[0])) and "self._groups[group].members" in norm(inter[0])
+            ok = bool(inter) and any(is_super_call(x, "_get_compatible_units") for x in ast.walk(inter[0])) and \
+                any(isinstance(x, ast.Attribute) and x.attr == "members" and _named_entry(x.value, "self._groups", "group") for x in ast.walk(inter[0]))
             ck.check(ok, "G-PROV", "group._get_compatible_units|plain-listing-intersected-with-members", fi.loc(cfg.nodes[r].ast),
                      "plain listing ∩ members of the named group", f"`{s}` is not the intersection of the plain listing with the group's members")
         else:
             ck.check(any(is_super_call(x, "_get_compatible_units") for x in ast.walk(v)), "G-PROV", "group._get_compatible_units|no-group-plain-listing", fi.loc(cfg.nodes[r].ast),
                      "no group: plain listing", f"`{s}` is not the plain listing")
     # edges on which `group` is known NOT to be a registered group (however the membership test is spelled): only raise
-    unk = sorted(set(_sh.guard_edges(cfg, lambda a_: isinstance(a_, ast.Compare) and isinstance(a_.ops[0], ast.In) and norm(a_.left) == "group" and norm(a_.comparators[0]) == "self._groups", want=False)))
+    # (`group in self._groups` known false, or the result of `self._groups.get(group)` known to be None)
+    unk = sorted(set(_sh.guard_edges(cfg, lambda a_: isinstance(a_, ast.Compare) and isinstance(a_.ops[0], ast.In) and norm(a_.left) == "group" and norm(a_.comparators[0]) == "self._groups", want=False))
+                 | set(_sh.guard_edges(cfg, lambda a_: isinstance(a_, ast.Compare) and isinstance(a_.ops[0], ast.Is) and norm(a_.comparators[0]) == "None"
+                                       and _sh.match("self._groups.get(group)", defs.inline(a_.left)) is not None, want=True)))
     ck.check(bool(unk), "G-DOM", "group._get_compatible_units|unknown-group-test", fi.loc(), "unknown group names are tested", "unknown group names are no longer detected")
     for t, lab in unk:
         p = edge_leads_only_to_raise(cfg, t, lab)
@@ -281,7 +305,8 @@ def run(ck, ix, tier):
         if "members" in s:
             n_sys += 1
             inter = [b for b in ast.walk(v) if isinstance(b, ast.BinOp) and isinstance(b.op, ast.BitAnd)]
-            ok = bool(inter) and any(is_super_call(x, "_get_compatible_units") for x in ast.walk(inter[0])) and "self._systems[group_or_system].members" in norm(inter[0])
+            ok = bool(inter) and any(is_super_call(x, "_get_compatible_units") for x in ast.walk(inter[0])) and \
+                any(isinstance(x, ast.Attribute) and x.attr == "members" and _named_entry(x.value, "self._systems", "group_or_system") for x in ast.walk(inter[0]))
             ck.check(ok, "G-PROV", "system._get_compatible_units|plain-listing-intersected-with-members", fi.loc(cfg.nodes[r].ast),
                      "plain listing ∩ members of the named system", f"`{s}` is not the intersection of the plain listing with the system's members")
     ck.check(n_sys >= 1, "G-PROV", "system._get_compatible_units|system-branch-present", fi.loc(), "system branch present", "the system branch of _get_compatible_units is gone")
@@ -329,14 +354,15 @@ def run(ck, ix, tier):
     ck.floor("G-PROV", len(tables), 1, "table handed to base_units.update in System.from_definition")
     expansion_of_new = f"get_root_func({NEW})"
     stores = [a_ for a_ in ast.walk(fn) if isinstance(a_, ast.Assign) and any(isinstance(t, ast.Subscript) and norm(t.value) in tables for t in a_.targets)]
-    ck.floor("G-PROV", len(stores), 2, "base_unit_names stores in System.from_definition")
+    ck.floor("G-PROV", len(stores), 1, "base_unit_names stores in System.from_definition")      # one per branch, or one after the branches
     divs = [b_ for b_ in ast.walk(rep_loops[0]) if isinstance(b_, ast.BinOp) and isinstance(b_.op, ast.Div)]
     ck.floor("G-PROV", len(divs), 1, "exponent divisions in System.from_definition")
-    for a_ in stores:
-        if isinstance(a_.value, ast.Dict):
-            for v_ in a_.value.values:
-                ck.check(isinstance(v_, ast.BinOp) and isinstance(v_.op, ast.Div), "G-PROV", "System.from_definition|bare-rule-inverted", fi.loc(a_), "replacement exponent is a reciprocal",
-                         f"`{norm(a_)}`: for a rule `new` whose root expansion is old**value the replacement must be new**(1/value), not new**({norm(v_)})")
+    # a replacement written as a literal {NEW: exponent} (the bare rule), wherever it is stored from
+    for d_ in [d_ for d_ in ast.walk(rep_loops[0]) if isinstance(d_, ast.Dict) and len(d_.keys) == 1 and d_.keys[0] is not None and norm(d_.keys[0]) == NEW]:
+        for v_ in d_.values:
+            st_ = memo.enclosing(d_, (ast.stmt,), fn) or d_
+            ck.check(isinstance(v_, ast.BinOp) and isinstance(v_.op, ast.Div), "G-PROV", "System.from_definition|bare-rule-inverted", fi.loc(st_), "replacement exponent is a reciprocal",
+                     f"`{norm(st_)}`: for a rule `new` whose root expansion is old**value the replacement must be new**(1/value), not new**({norm(v_)})")
 
     def exponent_of_old(e):
         """e is (a name for) <expansion of new>[OLD]"""
